@@ -163,7 +163,11 @@ func (p *jsonPathParser) setNodeChain() {
 
 			nextNode := next.(syntaxNode)
 
-			if multiIdentifier, ok := last.(*syntaxChildMultiIdentifier); ok {
+			multiCandidate := last
+			if recursive, ok := last.(*syntaxRecursiveChildIdentifier); ok {
+				multiCandidate = recursive.getNext()
+			}
+			if multiIdentifier, ok := multiCandidate.(*syntaxChildMultiIdentifier); ok {
 				for _, singleIdentifier := range multiIdentifier.identifiers {
 					singleIdentifier.setNext(nextNode)
 				}
